@@ -32,6 +32,10 @@ def voxelize(obj, **kwargs):
     use_cubes = kwargs.pop('use_cubes', False)
     num_procs = kwargs.get('num_procs', 1)
 
+    # The in-outs finding functions read the voxel padding from the "tol" keyword argument
+    if 'padding' in kwargs:
+        kwargs['tol'] = kwargs.pop('padding')
+
     if not isinstance(grid_size, (list, tuple)):
         raise TypeError("Grid size must be a list or a tuple of integers")
 
